@@ -28,10 +28,13 @@ func TestMain(m *testing.M) { evid.Main(m, "C04") }
 type Case struct {
 	T      tgen.TypeDesc `json:"type"`
 	Vals   []tgen.Recipe `json:"vals"`
-	Protos []int         `json:"protos"`        // protocol (0 binary strict, 1 binary non-strict, 2 compact) of value i in the Reset chain
-	Init   int           `json:"init"`          // protocol the reused Encoder/Decoder are created with
-	ByPtr  bool          `json:"by_ptr"`        // pass *T instead of T to Marshal / Encode
-	Big    string        `json:"big,omitempty"` // label of a tgen.BigSpec case (collection of more than 1024 elements)
+	Protos []int         `json:"protos"` // protocol (0 binary strict, 1 binary non-strict, 2 compact) of value i in the Reset chain
+	Init   int           `json:"init"`   // protocol the reused Encoder/Decoder are created with
+	ByPtr  bool          `json:"by_ptr"` // pass *T instead of T to Marshal / Encode
+	// how the bytes reach the Decoders (index into tgen.DeliveryModes; Chunks for the chunked modes)
+	Deliver int    `json:"deliver,omitempty"`
+	Chunks  []int  `json:"chunks,omitempty"`
+	Big     string `json:"big,omitempty"` // label of a tgen.BigSpec case (collection of more than 1024 elements)
 }
 
 var protoNames = []string{"binary-strict", "binary-nonstrict", "compact"}
@@ -127,7 +130,7 @@ func checkCase(c Case) *evid.Failure {
 				}
 				out2 := reflect.New(typ)
 				if f := guard("Decoder.Decode "+where, func() *evid.Failure {
-					if err := thrift.NewDecoder(proto(p).NewReader(bytes.NewReader(buf.Bytes()))).Decode(out2.Interface()); err != nil {
+					if err := thrift.NewDecoder(proto(p).NewReader(tgen.NewDelivery(c.Deliver, buf.Bytes(), c.Chunks))).Decode(out2.Interface()); err != nil {
 						return fail("unmarshal-error", "fresh Decoder succeeds ("+where+")", err.Error()+" on "+evid.Hex(buf.Bytes()), "nil error")
 					}
 					return nil
@@ -164,7 +167,7 @@ func checkCase(c Case) *evid.Failure {
 					return f
 				}
 				out := reflect.New(typ)
-				dec.Reset(proto(p).NewReader(bytes.NewReader(buf.Bytes())))
+				dec.Reset(proto(p).NewReader(tgen.NewDelivery(c.Deliver, buf.Bytes(), c.Chunks)))
 				if err := dec.Decode(out.Interface()); err != nil {
 					return fail("reset-error", "reused Decoder succeeds ("+where+")", err.Error()+" on "+evid.Hex(buf.Bytes()), "nil error")
 				}
@@ -191,7 +194,7 @@ func checkCase(c Case) *evid.Failure {
 					return fail("reset-bytes-mismatch", fmt.Sprintf("Encoder used for several values writes what a fresh one writes (value %d, %s)", i, protoNames[p]), fmt.Sprintf("%d bytes so far", buf.Len()), fmt.Sprintf("%d bytes", want))
 				}
 			}
-			dec := thrift.NewDecoder(proto(p).NewReader(bytes.NewReader(buf.Bytes())))
+			dec := thrift.NewDecoder(proto(p).NewReader(tgen.NewDelivery(c.Deliver, buf.Bytes(), c.Chunks)))
 			for i := 0; i < n; i++ {
 				out := reflect.New(typ)
 				if err := dec.Decode(out.Interface()); err != nil {
@@ -273,6 +276,7 @@ func genCase(t *rapid.T, o *tgen.Opts) Case {
 
 func account(c Case) {
 	evid.Eval(1)
+	evid.Label("deliver." + tgen.DeliveryModes[c.Deliver%len(tgen.DeliveryModes)])
 	if c.Big != "" {
 		evid.Label("big-collection(>1024 elements)." + c.Big)
 		evid.Label("big-collection(>1024 elements)")
@@ -335,6 +339,10 @@ func TestRoundTrip(t *testing.T) {
 	evid.Check(t, "RoundTrip", n, func(rt *rapid.T) {
 		before := o.Avoided["id-range-beyond-bitmap"]
 		c := genCase(rt, o)
+		c.Deliver = rapid.IntRange(0, len(tgen.DeliveryModes)-1).Draw(rt, "deliver")
+		if c.Deliver >= 3 {
+			c.Chunks = rapid.SliceOfN(rapid.IntRange(1, 7), 1, 8).Draw(rt, "chunks")
+		}
 		for i := before; i < o.Avoided["id-range-beyond-bitmap"]; i++ {
 			evid.Excluded(classWideIDs)
 		}
